@@ -131,9 +131,19 @@ func richContainer(id, pod, name string, st api.ContainerState, r *rand.Rand) *a
 }
 
 // Decorate applies a seeded selection of decorations.  Everything goes through the public API.
-func Decorate(ch cache.Cache, seed int64, round int) (applied []string) {
+func Decorate(ch cache.Cache, seed int64, round int) (applied []string, panics []map[string]string) {
 	r := rand.New(rand.NewSource(seed*1000003 + int64(round)))
 	tag := func(s string) { applied = append(applied, s) }
+	panics = []map[string]string{}
+	// a public API call that panics on a cache loaded from a valid snapshot is recorded, the decoration goes on
+	safe := func(what string, f func()) {
+		defer func() {
+			if p := recover(); p != nil {
+				panics = append(panics, map[string]string{"fn": what, "msg": fmt.Sprint(p)})
+			}
+		}()
+		f()
+	}
 	sfx := fmt.Sprintf("-%d", round)
 
 	// a pod with pod resources (device topology -> topology hints) and annotated affinities in both notations
@@ -160,7 +170,7 @@ func Decorate(ch cache.Cache, seed int64, round int) (applied []string) {
 		RuntimeHandler: "runc", Linux: &api.LinuxPodSandbox{CgroupParent: parent}, Pid: 4242}
 	resCh := make(chan *podresapi.PodResources, 1)
 	resCh <- podResources(ns, nriPod.Name, cnames...)
-	ch.InsertPod(nriPod, resCh)
+	safe("InsertPod", func() { ch.InsertPod(nriPod, resCh) })
 	tag("pod+podresources+affinity")
 
 	states := map[string]api.ContainerState{
@@ -174,17 +184,19 @@ func Decorate(ch cache.Cache, seed int64, round int) (applied []string) {
 		nc := richContainer(id, podID, name, states[name], r)
 		var c cache.Container
 		var err error
-		if name == "dc-creating" {
-			c, err = ch.InsertContainer(nc, cache.WithContainerState(cache.ContainerStateCreating))
-		} else {
-			c, err = ch.InsertContainer(nc)
-		}
-		if err != nil {
+		safe("InsertContainer", func() {
+			if name == "dc-creating" {
+				c, err = ch.InsertContainer(nc, cache.WithContainerState(cache.ContainerStateCreating))
+			} else {
+				c, err = ch.InsertContainer(nc)
+			}
+		})
+		if err != nil || c == nil {
 			tag("insert-failed:" + name)
 			continue
 		}
 		if name == "dc-stale" {
-			c.UpdateState(cache.ContainerStateStale)
+			safe("UpdateState", func() { c.UpdateState(cache.ContainerStateStale) })
 		}
 		mine = append(mine, c)
 	}
@@ -194,13 +206,17 @@ func Decorate(ch cache.Cache, seed int64, round int) (applied []string) {
 	all := ch.GetContainers()
 	sort.Slice(all, func(i, j int) bool { return all[i].GetID() < all[j].GetID() })
 	for _, c := range all {
-		if r.Intn(3) == 0 {
-			c.SetTag("verif/tag", "t"+strconv.Itoa(r.Intn(100)))
-			c.SetTag("empty", "")
-			c.SetTag("unié\"quote", "v\n2")
-			if r.Intn(4) == 0 {
-				c.DeleteTag("empty")
-			}
+		c := c
+		doTag, tagv, delTag := r.Intn(3) == 0, "t"+strconv.Itoa(r.Intn(100)), r.Intn(4) == 0
+		if doTag {
+			safe("SetTag", func() {
+				c.SetTag("verif/tag", tagv)
+				c.SetTag("empty", "")
+				c.SetTag("unié\"quote", "v\n2")
+				if delTag {
+					c.DeleteTag("empty")
+				}
+			})
 		}
 		if r.Intn(3) == 0 {
 			lr := &api.LinuxResources{Cpu: &api.LinuxCPU{Shares: api.UInt64(uint64(2 + r.Intn(4096)))}}
@@ -210,40 +226,47 @@ func Decorate(ch cache.Cache, seed int64, round int) (applied []string) {
 			if r.Intn(2) == 0 {
 				lr.Memory = &api.LinuxMemory{Limit: api.Int64(int64(1+r.Intn(32)) << 25)}
 			}
-			c.SetResourceUpdates(lr)
+			safe("SetResourceUpdates", func() { c.SetResourceUpdates(lr) })
 		}
 		if c.GetState() == cache.ContainerStateStale {
 			continue
 		}
 		if r.Intn(3) == 0 {
-			lo := r.Intn(6)
-			c.SetCpusetCpus(cpuset.New(lo, lo+1+r.Intn(3)).String())
-			c.SetCpusetMems(strconv.Itoa(r.Intn(2)))
-			c.SetCPUShares(int64(2 + r.Intn(1000)))
-			if r.Intn(2) == 0 {
-				c.SetCPUQuota(int64(r.Intn(5)) * 20000)
-				c.SetCPUPeriod(100000)
-			}
-			if r.Intn(2) == 0 {
-				c.SetMemoryLimit(int64(1+r.Intn(16)) << 26)
-				c.SetMemorySwap(int64(r.Intn(2)) << 27)
-			}
+			lo, n, mem, sh := r.Intn(6), 1+r.Intn(3), r.Intn(2), int64(2+r.Intn(1000))
+			q, quota, m, lim, swap := r.Intn(2) == 0, int64(r.Intn(5))*20000, r.Intn(2) == 0, int64(1+r.Intn(16))<<26, int64(r.Intn(2))<<27
+			safe("SetResources", func() {
+				c.SetCpusetCpus(cpuset.New(lo, lo+n).String())
+				c.SetCpusetMems(strconv.Itoa(mem))
+				c.SetCPUShares(sh)
+				if q {
+					c.SetCPUQuota(quota)
+					c.SetCPUPeriod(100000)
+				}
+				if m {
+					c.SetMemoryLimit(lim)
+					c.SetMemorySwap(swap)
+				}
+			})
 		}
 		if r.Intn(5) == 0 {
-			c.SetRDTClass([]string{"gold", "silver", ""}[r.Intn(3)])
-			c.SetBlockIOClass([]string{"fast", "slow"}[r.Intn(2)])
+			rdt, bio := []string{"gold", "silver", ""}[r.Intn(3)], []string{"fast", "slow"}[r.Intn(2)]
+			safe("SetClasses", func() {
+				c.SetRDTClass(rdt)
+				c.SetBlockIOClass(bio)
+			})
 		}
 	}
 	tag("tags+updates+assignments")
 
-	setTypedEntries(ch, r)
+	safe("SetPolicyEntry", func() { setTypedEntries(ch, r) })
 	tag("typed-policy-entries")
 
 	if r.Intn(3) == 0 && len(mine) > 2 {
-		ch.DeleteContainer(mine[r.Intn(len(mine))].GetID())
+		id := mine[r.Intn(len(mine))].GetID()
+		safe("DeleteContainer", func() { ch.DeleteContainer(id) })
 		tag("delete-container")
 	}
-	return applied
+	return applied, panics
 }
 
 // typed policy entries: one per type cache.SetPolicyEntry/GetPolicyEntry special-cases, plus a Cacheable.
